@@ -938,7 +938,7 @@ class Interp:
                 return [as_int(x) for x in v]
             return v
         if isinstance(v, tuple):
-            return tuple(as_int(x) if not isinstance(x, slice) else x for x in v)
+            return tuple(x if (isinstance(x, slice) or x is None or x is Ellipsis) else as_int(x) for x in v)
         if is_static_int(v) or isinstance(v, sp.Rational):
             return as_int(v)
         return v
@@ -1069,6 +1069,17 @@ class Interp:
         if isinstance(node.op, ast.Invert):
             if isinstance(v, np.ndarray) and v.dtype == bool:
                 return ~v
+            if isinstance(v, np.ndarray):
+                def inv(x):
+                    tv = self.truth(x)
+                    return (not tv) if tv is not None else sp.Not(x)
+                out = np.empty(v.shape, dtype=object)
+                for idx in np.ndindex(v.shape):
+                    out[idx] = inv(v[idx])
+                return out
+            if _boolish(v):
+                tv = self.truth(v)
+                return (not tv) if tv is not None else sp.Not(v)
             return ~as_int(v)
         raise OutsideFragment("unary op")
 
@@ -1126,7 +1137,23 @@ class Interp:
                 return not r
             raise OutsideFragment("ordering on str/None")
         if isinstance(a, np.ndarray) or isinstance(b, np.ndarray):
-            raise OutsideFragment("array comparison")
+            A = a if isinstance(a, np.ndarray) else None
+            B = b if isinstance(b, np.ndarray) else None
+            if A is not None and B is not None:
+                A, B = np.broadcast_arrays(A, B)
+                out = np.empty(A.shape, dtype=object)
+                for idx in np.ndindex(A.shape):
+                    out[idx] = self.compare(op, A[idx], B[idx])
+                return out
+            if A is not None:
+                out = np.empty(A.shape, dtype=object)
+                for idx in np.ndindex(A.shape):
+                    out[idx] = self.compare(op, A[idx], b)
+                return out
+            out = np.empty(B.shape, dtype=object)
+            for idx in np.ndindex(B.shape):
+                out[idx] = self.compare(op, a, B[idx])
+            return out
         if isinstance(a, (tuple, list)) and isinstance(b, (tuple, list)):
             if isinstance(op, ast.Eq):
                 return len(a) == len(b) and all(self.compare(op, x, y) is True for x, y in zip(a, b))
@@ -1215,11 +1242,8 @@ class Interp:
                 return a | b
             if op is ast.BitXor:
                 return a ^ b
-        if isinstance(a, bool) or isinstance(b, bool):
-            if op is ast.BitAnd:
-                return self._logic(sp.And, a, b)
-            if op is ast.BitOr:
-                return self._logic(sp.Or, a, b)
+        if op in (ast.BitAnd, ast.BitOr) and (_boolish(a) and _boolish(b)):
+            return self._logic(sp.And if op is ast.BitAnd else sp.Or, a, b)
         sa, sb = S(a), S(b)
         if _is_boolterm(sa) or _is_boolterm(sb):
             if op is ast.BitAnd:
@@ -1258,7 +1282,9 @@ class Interp:
         ta, tb = self.truth(a), self.truth(b)
         if ta is not None and tb is not None:
             return bool(f(ta, tb))
-        return f(S(a), S(b))
+        la = (sp.true if ta else sp.false) if ta is not None else S(a)
+        lb = (sp.true if tb else sp.false) if tb is not None else S(b)
+        return f(la, lb)
 
     def matmul(self, a, b):
         A, B = to_obj_array(a), to_obj_array(b)
@@ -1666,6 +1692,14 @@ class Interp:
 
 
 _MODCONST_CACHE = {}
+
+
+def _boolish(v):
+    if isinstance(v, (bool, np.bool_)):
+        return True
+    if isinstance(v, sp.Basic):
+        return _is_boolterm(v) or v in (sp.Integer(0), sp.Integer(1))
+    return False
 
 
 def _zero_skip_symbol(cond):
